@@ -417,6 +417,18 @@ def _(c):
         want = Tle.from_orbit(ref)
         got = Tle.from_orbit(relabel_orbit(ref, le))
         c.ensure("tle_text", str(want) == str(got))
+        # epochs whose UTC reading and whose reading under the label fall in different calendar years / days (the seconds before a UTC new year):
+        # the epoch field (two-digit year + day of the year with its fraction) is that of the UTC reading, whatever the label
+        from datetime import datetime
+        ok_y = True
+        for u in (datetime(2015, 12, 31, 23, 59, 50), datetime(2016, 12, 31, 23, 59, 30), datetime(1999, 12, 31, 23, 59, 45)):
+            o = ref.copy()
+            o.date = Date(u, scale="UTC")
+            text = str(Tle.from_orbit(relabel_orbit(o, le)))
+            l1 = [x for x in text.splitlines() if x.startswith("1 ")][0]
+            doy = (u - datetime(u.year, 1, 1)).total_seconds() / 86400.0 + 1
+            ok_y = ok_y and l1[18:20] == f"{u.year % 100:02d}" and abs(float(l1[20:32]) - doy) <= 1.5e-8 and text == str(Tle.from_orbit(o))
+        c.ensure("tle_epoch_field_is_the_utc_reading", ok_y)
     elif op in ("sun", "moon"):
         from beyond.env.solarsystem import get_body
         body = get_body("Sun" if op == "sun" else "Moon")
